@@ -2,6 +2,7 @@ package main
 
 import (
 	"fmt"
+	"go/constant"
 	"go/token"
 	"go/types"
 	"sort"
@@ -404,6 +405,299 @@ func runC07(c *Ctx) {
 		}
 	}
 
+	// ------------------------------------------------------------ P12
+	c.Rule("C07.P12", "GATE", "a pending staking record is never negative: in package staking the amount handed to AddStakingRecord, when its last arithmetic step can lower it (Sub, or Add of a delta that may be negative), is known not to be negative at the store: either the branch taken to a Sub says (sign domain over the Cmp result) that the minuend is not smaller than the subtrahend, or on every path from the step to the store a Sign() of the value excludes −1 or the value is given a fresh amount (SetUint64 / Set / Abs). A withdraw followed by a larger delegation-sub drove the validator's pending total to −100 YOU: the record cannot be encoded, the period's pending transactions are dropped and a bystander's 5000 YOU deposit vanishes from the supply")
+	c.Min(2)
+	{
+		addRec := w.FuncObj(statePkg, "StateDB", "AddStakingRecord")
+		nRec := 0
+		for _, fn := range w.FuncsIn("staking") {
+			if fn.Blocks == nil || strings.HasSuffix(w.fileOf(fn.Pos()), "_test.go") {
+				continue
+			}
+			recs := callsTo(fn, addRec)
+			if len(recs) == 0 {
+				continue
+			}
+			ai := bigIntAliases(fn)
+			for k, rc := range recs {
+				args := callArgs(rc)
+				v := stripConv(args[len(args)-1])
+				cls := ai.class(v)
+				// the last lowering step on the value
+				var step *ssa.Call
+				for _, ci := range callInstrs(fn) {
+					cc, ok := ci.(*ssa.Call)
+					if !ok {
+						continue
+					}
+					o := calleeObj(cc)
+					if o == nil || o.Pkg() == nil || o.Pkg().Path() != "math/big" || !(o.Name() == "Sub" || o.Name() == "Add") {
+						continue
+					}
+					r := callRecv(cc)
+					if r == nil || ai.class(stripConv(r)) != cls || !instrDominates(cc, rc.(ssa.Instruction)) {
+						continue
+					}
+					if step == nil || instrDominates(step, cc) {
+						step = cc
+					}
+				}
+				if step == nil {
+					continue // no arithmetic on the value here (a decoded or copied amount)
+				}
+				if calleeObj(step).Name() == "Add" {
+					// an Add lowers the value only if an operand may be negative: a parameter or a Neg result
+					mayNeg := false
+					for _, a := range callArgs(step) {
+						if derivesFrom(a, func(x ssa.Value) bool {
+							if p, isP := x.(*ssa.Parameter); isP && isBigIntPtr(p.Type()) {
+								return true
+							}
+							if cc, isC := x.(*ssa.Call); isC && calleeObj(cc) != nil && calleeObj(cc).Name() == "Neg" {
+								return true
+							}
+							return false
+						}) {
+							mayNeg = true
+						}
+					}
+					if !mayNeg {
+						continue
+					}
+				}
+				nRec++
+				c.sites++
+				c.sawFunc(fname(fn))
+				tested := false
+				// (a) before a Sub: its two operands were compared and the branch taken to the Sub says minuend >= subtrahend
+				if calleeObj(step).Name() == "Sub" {
+					atoms := atomsOf(factsAt(step.Block()))
+					for _, ci := range callInstrs(fn) {
+						cc, ok := ci.(*ssa.Call)
+						if !ok || !instrDominates(cc, step) {
+							continue
+						}
+						o := calleeObj(cc)
+						if o == nil || o.Pkg() == nil || o.Pkg().Path() != "math/big" || o.Name() != "Cmp" {
+							continue
+						}
+						r := callRecv(cc)
+						sa, ca := callArgs(step), callArgs(cc)
+						if r == nil || len(sa) != 2 || len(ca) != 1 {
+							continue
+						}
+						match := func(a, b ssa.Value) bool {
+							return ai.class(stripConv(a)) == ai.class(stripConv(b)) || samePath(a, b)
+						}
+						al := allowedSigns(atoms, cc)
+						if match(sa[0], r) && match(sa[1], ca[0]) && !al[0] {
+							tested = true // r.Cmp(a) in {0,+1}: r - a >= 0
+						}
+						if match(sa[0], ca[0]) && match(sa[1], r) && !al[2] {
+							tested = true // r.Cmp(a) in {-1,0}: a - r >= 0
+						}
+					}
+				}
+				// (b) after the step: on every path to the store the sign of the value is known not to be negative,
+				// or the value is given a fresh amount
+				if !tested {
+					idx := func(in ssa.Instruction) int {
+						for i, x := range in.Block().Instrs {
+							if x == in {
+								return i
+							}
+						}
+						return -1
+					}
+					all, n := true, 0
+					complete := pathsBetween(fn, step.Block(), rc.Block(), 4000, func(blocks []*ssa.BasicBlock, facts []Fact) {
+						n++
+						atoms := atomsOf(facts)
+						onPath := map[*ssa.BasicBlock]bool{}
+						for _, b := range blocks {
+							onPath[b] = true
+						}
+						safe := false
+						for _, ci := range callInstrs(fn) {
+							cc, ok := ci.(*ssa.Call)
+							if !ok || !onPath[cc.Block()] {
+								continue
+							}
+							if cc.Block() == step.Block() && idx(cc) < idx(step) || cc.Block() == rc.Block() && idx(cc) > idx(rc.(ssa.Instruction)) {
+								continue
+							}
+							o := calleeObj(cc)
+							if o == nil || o.Pkg() == nil || o.Pkg().Path() != "math/big" {
+								continue
+							}
+							r := callRecv(cc)
+							if r == nil || ai.class(stripConv(r)) != cls {
+								continue
+							}
+							switch o.Name() {
+							case "Sign":
+								if al := allowedSigns(atoms, cc); !al[0] {
+									safe = true
+								}
+							case "SetUint64", "Abs":
+								safe = true
+							case "Set", "SetInt64":
+								if cc != step {
+									safe = true
+								}
+							}
+						}
+						if !safe {
+							all = false
+						}
+					})
+					if complete && n > 0 && all {
+						tested = true
+					}
+				}
+				c.Check(fmt.Sprintf("%s#pending-amount-%d-not-negative", fname(fn), k), rc.Pos(), tested, ifelse(tested, "the sign (or the order of the operands) is tested between the last lowering step and the store", "the amount stored as pending staking record was lowered ("+calleeObj(step).Name()+" at "+w.Pos(step.Pos())+") and is stored without a sign test: it can become negative, cannot be encoded, and the flush of the staking trie fails for the whole period"))
+			}
+		}
+		if nRec == 0 {
+			c.Undecided("staking#pending-record-amounts", token.NoPos, "no AddStakingRecord call with a lowered amount found in package staking")
+		}
+	}
+
+	// ------------------------------------------------------------ P13
+	c.Rule("C07.P13", "ALWAYS-WITH", "a validator record that is about to be removed holds no value: a record with no token and no stake left (Validator.IsInvalid) is deleted at the end of the block with whatever it holds, and settleValidatorRewards leaves the rounding residue of an ONLINE validator in RewardsDistributable. So every take-effect handler (the functions registered in teHandlers) that can lower a validator's total tokens — a Sub on Validator.Token or UpdateDelegation with a negated amount — passes afterwards, on every path to a return, a pay-out that tests IsInvalid() and credits RewardsDistributable with AddBalance, then re-sets that field in the replacement record and stores it (in the handler or in a helper it calls). takePenalty lowers the total by a fraction and is not covered")
+	c.Min(2)
+	{
+		valT := w.Named(statePkg, "Validator")
+		addBal := w.FuncObj(statePkg, "StateDB", "AddBalance")
+		isInv := w.FuncObj(statePkg, "Validator", "IsInvalid")
+		updDel := w.FuncObj(statePkg, "StateDB", "UpdateDelegation")
+		// the registered take-effect handlers
+		var hs []*ssa.Function
+		seenH := map[*ssa.Function]bool{}
+		for _, fn := range w.FuncsIn("staking") {
+			if fn.Blocks == nil || !strings.HasPrefix(fn.Name(), "init") {
+				continue
+			}
+			for _, b := range fn.Blocks {
+				for _, in := range b.Instrs {
+					mu, ok := in.(*ssa.MapUpdate)
+					if !ok {
+						continue
+					}
+					u, ok := mu.Map.(*ssa.UnOp)
+					if !ok {
+						continue
+					}
+					if g, ok := u.X.(*ssa.Global); !ok || g.Name() != "teHandlers" {
+						continue
+					}
+					if h, ok := stripConvNoBind(mu.Value).(*ssa.Function); ok && !seenH[h] {
+						seenH[h] = true
+						hs = append(hs, h)
+					}
+				}
+			}
+		}
+		sort.Slice(hs, func(i, j int) bool { return hs[i].Name() < hs[j].Name() })
+		if len(hs) < 5 {
+			c.Undecided("staking.teHandlers", token.NoPos, fmt.Sprintf("only %d take-effect handlers found in the registry", len(hs)))
+		}
+		// pays(fn): fn tests IsInvalid and credits a RewardsDistributable amount
+		pays := func(fn *ssa.Function) bool {
+			if fn == nil || fn.Blocks == nil || len(callsTo(fn, isInv)) == 0 {
+				return false
+			}
+			// what is paid out is taken out of the record: afterwards the field of the replacement record is
+			// re-set and the replacement is stored
+			var zeroes []ssa.Instruction
+			for _, ci := range callInstrs(fn) {
+				o := calleeObj(ci)
+				if o == nil || o.Pkg() == nil || o.Pkg().Path() != "math/big" {
+					continue
+				}
+				switch o.Name() {
+				case "SetUint64", "SetInt64", "Set", "Sub":
+				default:
+					continue
+				}
+				if r := callRecv(ci); r != nil {
+					if f, base := loadedField(stripConvNoBind(r)); f != nil && f.Name() == "RewardsDistributable" && base != nil && types.Identical(deref(base.Type()), valT) {
+						zeroes = append(zeroes, ci.(ssa.Instruction))
+					}
+				}
+			}
+			var stores []ssa.Instruction
+			for _, ci := range callsTo(fn, w.FuncObj(statePkg, "StateDB", "UpdateValidator")) {
+				stores = append(stores, ci.(ssa.Instruction))
+			}
+			for _, ci := range callsTo(fn, addBal) {
+				args := callArgs(ci)
+				f, base := loadedField(stripConvNoBind(args[len(args)-1]))
+				if f != nil && f.Name() == "RewardsDistributable" && base != nil && types.Identical(deref(base.Type()), valT) {
+					if len(zeroes) > 0 && len(stores) > 0 && mustPassAfter(ci.(ssa.Instruction), zeroes) && mustPassAfter(ci.(ssa.Instruction), stores) {
+						return true
+					}
+				}
+			}
+			return false
+		}
+		for _, h := range hs {
+			var lowers []ssa.Instruction
+			for _, ci := range callInstrs(h) {
+				o := calleeObj(ci)
+				if o == nil {
+					continue
+				}
+				if o == updDel {
+					args := callArgs(ci)
+					if derivesFrom(args[len(args)-1], func(x ssa.Value) bool {
+						cc, ok := x.(*ssa.Call)
+						return ok && calleeObj(cc) != nil && calleeObj(cc).Name() == "Neg"
+					}) {
+						lowers = append(lowers, ci.(ssa.Instruction))
+					}
+					continue
+				}
+				if o.Pkg() != nil && o.Pkg().Path() == "math/big" && o.Name() == "Sub" {
+					if r := callRecv(ci); r != nil {
+						f, base := loadedField(stripConvNoBind(r))
+						if f != nil && f.Name() == "Token" && base != nil && types.Identical(deref(base.Type()), valT) {
+							lowers = append(lowers, ci.(ssa.Instruction))
+						}
+					}
+				}
+			}
+			if len(lowers) == 0 {
+				continue
+			}
+			c.sawFunc(fname(h))
+			var gates []ssa.Instruction
+			for _, ci := range callInstrs(h) {
+				if g := ci.Common().StaticCallee(); g != nil && g.Pkg == h.Pkg && pays(g) {
+					gates = append(gates, ci.(ssa.Instruction))
+				}
+			}
+			if pays(h) {
+				for _, ci := range callsTo(h, addBal) {
+					args := callArgs(ci)
+					if f, _ := loadedField(stripConvNoBind(args[len(args)-1])); f != nil && f.Name() == "RewardsDistributable" {
+						// the guarded credit itself: the paths that skip it are those on which the record is not empty
+						gates = append(gates, ci.(ssa.Instruction))
+						for _, t := range callsTo(h, isInv) {
+							gates = append(gates, t.(ssa.Instruction))
+						}
+					}
+				}
+			}
+			for k, lo := range lowers {
+				c.sites++
+				ok := len(gates) > 0 && mustPassAfter(lo, gates)
+				c.Check(fmt.Sprintf("%s#lowering-%d-then-residue-paid", fname(h), k), lo.Pos(), ok, ifelse(ok, "every path from the lowering to a return passes the pay-out of an emptied record's distributable rewards", "the handler can take the validator's last token and returns without paying out what the record still holds in RewardsDistributable: the record is deleted at the end of the block and the rounding residue left by settleValidatorRewards (online validator) disappears from the supply"))
+			}
+		}
+	}
+
 	// ------------------------------------------------------------ P9
 	c.Rule("C07.P9", "ORDER", "in settleValidatorRewards the residue is carried over into the new record (RewardsDistributable.Set(record.residue)) only after everything that pays it out or zeroes it: no payment of record.residue and no in-place change of it can follow the carry-over")
 	c.Min(1)
@@ -793,6 +1087,7 @@ func c07P4(c *Ctx, w *World) {
 		"staking.handleDelegationAdd":                  {map[string]int{"SubBalance": 1}, "debit recorded as pending delegation record; credited/refunded by teDelegationAdd"},
 		"staking.settleValidatorRewards":               {map[string]int{"AddBalance": 4}, "pays out RewardsDistributable, which the replacement record zeroes / reduces to the residue"},
 		"staking.processWithdrawQueue":                 {map[string]int{"AddBalance": 1}, "pays FinalBalance of a withdraw record once (P3)"},
+		"staking.payOutResidueOfEmptyValidator":        {map[string]int{"AddBalance": 1}, "pays out RewardsDistributable of a record that is about to be removed, which the replacement record zeroes (checked by P13)"},
 		"staking.blockRewards":                         {map[string]int{"SubBalance": 1}, "subsidies leave the rewards pool and enter the block's total rewards"},
 		"core.Transfer":                                {map[string]int{"SubBalance": 1, "AddBalance": 1}, "sender debit = recipient credit"},
 		"(core.MessageContext).buyGas":                 {map[string]int{"SubBalance": 1}, "gas bought at GasPrice; refunded by refundGas, the rest becomes gas rewards"},
@@ -968,5 +1263,62 @@ func c07Variants() []Variant {
 		{Name: "pay-without-finishing", File: "staking/endblock.go", Old: "				returnAmount.Set(record.FinalBalance)\n				record.Finished = 1\n", New: "				returnAmount.Set(record.FinalBalance)\n", Rule: "C07.P3", Construct: "pays-once"},
 		{Name: "new-mint-site", File: "staking/endblock.go", Old: "	// collect the global residue\n	initStat.GetByKind(params.KindValidator).SetRewardsResidue(residue)", New: "	ctx.db.AddBalance(ctx.header.Coinbase, residue)\n	// collect the global residue\n	initStat.GetByKind(params.KindValidator).SetRewardsResidue(residue)", Rule: "C07.P4", Construct: "rewardsToPool#balance-mutation"},
 		{Name: "subsidy-not-debited", File: "staking/endblock.go", Old: "		db.SubBalance(config.RewardsPoolAddress, subsidies) //from pool\n", New: "", Rule: "C07.P4", Construct: "blockRewards"},
+		{Name: "pending-record-without-floor", File: "staking/delegation_handler.go", Old: "	if totalTokens.Sign() < 0 {", New: "	if totalTokens.Sign() < 0 && deltaTokens.Sign() > 0 {", Rule: "C07.P12", Construct: "checkAndUpdateTotalPendingStakesOfValidator"},
 	}
+}
+
+// allowedSigns: which of (-1, 0, +1) the facts leave possible for the integer result of call (Sign / Cmp).
+func allowedSigns(atoms []Atom, call *ssa.Call) [3]bool {
+	al := [3]bool{true, true, true}
+	konst := func(v ssa.Value) (int64, bool) {
+		if c, ok := v.(*ssa.Const); ok && c.Value != nil && c.Value.Kind() == constant.Int {
+			if k, exact := constant.Int64Val(c.Value); exact {
+				return k, true
+			}
+		}
+		return 0, false
+	}
+	holds := func(x int64, op token.Token, k int64) bool {
+		switch op {
+		case token.LSS:
+			return x < k
+		case token.LEQ:
+			return x <= k
+		case token.GTR:
+			return x > k
+		case token.GEQ:
+			return x >= k
+		case token.EQL:
+			return x == k
+		}
+		return true
+	}
+	flip := map[token.Token]token.Token{token.LSS: token.GTR, token.LEQ: token.GEQ, token.GTR: token.LSS, token.GEQ: token.LEQ, token.EQL: token.EQL}
+	for _, a := range atoms {
+		op := a.Op
+		if a.Kind == "eq" {
+			op = token.EQL
+		} else if a.Kind != "cmp" {
+			continue
+		}
+		var k int64
+		var ok bool
+		if stripConvNoBind(a.X) == ssa.Value(call) {
+			k, ok = konst(a.Y)
+		} else if a.Y != nil && stripConvNoBind(a.Y) == ssa.Value(call) {
+			k, ok = konst(a.X)
+			op = flip[op]
+		} else {
+			continue
+		}
+		if !ok {
+			continue
+		}
+		for i, x := range []int64{-1, 0, 1} {
+			if holds(x, op, k) != a.Truth {
+				al[i] = false
+			}
+		}
+	}
+	return al
 }
